@@ -1,9 +1,11 @@
 use crate::common::*;
 pub mod varint;
+pub mod sqlprobe;
 
 pub fn run(engine: &str, ctx: &Ctx) -> Report {
     match engine {
         "varint" => varint::run(ctx),
+        "sqlprobe" => sqlprobe::run(ctx),
         _ => {
             eprintln!("unknown engine {engine}");
             std::process::exit(2);
